@@ -23,11 +23,14 @@
 (***************************************************************************)
 EXTENDS RouteTree, TraceBase
 CONSTANT Dev
-VARIABLES H, names
-tvars == <<H, names, l>>
+VARIABLES H, names,
+          taint    \* the code accepted a registration that layer P does not consider well-formed: from then on the set of
+                   \* "successfully registered routes" of this case is not the one P knows, and the events that presuppose it
+                   \* (Serve, URLPath, Name) get no verdict (the acceptance itself is judged: verdict "accept", owned by C08)
+tvars == <<H, names, taint, l>>
 
-TInit == H = <<>> /\ names = {} /\ LInit
-TReset == IsEv("reset") /\ H' = <<>> /\ names' = {}
+TInit == H = <<>> /\ names = {} /\ taint = FALSE /\ LInit
+TReset == IsEv("reset") /\ H' = <<>> /\ names' = {} /\ taint' = FALSE
 
 SeqToSet(s) == { s[i] : i \in 1..Len(s) }
 PairsToFun(ps) == [k \in { ps[i][1] : i \in 1..Len(ps) } |-> ps[CHOOSE i \in 1..Len(ps) : ps[i][1] = k /\ \A j \in 1..Len(ps) : ps[j][1] = k => j <= i][2]]
@@ -46,18 +49,19 @@ AddVerdict(e) ==
   IF e.skipped THEN "ok"          \* a multi-method call stopped at an earlier method: never attempted
   ELSE IF e.accepted = wf THEN "ok"
   ELSE IF "D11" \in Dev /\ wf /\ ~e.accepted /\ GhostBlocks(e.m, e.r) THEN "D11"
-  ELSE "bad"
+  ELSE "accept"
 TAddRoute == /\ IsEv("AddRoute")
              /\ LET e == Tr[l] IN
                 /\ Verdict(AddVerdict(e))
                 /\ H' = Append(H, [m |-> e.m, r |-> e.r, ok |-> e.accepted, hdr |-> <<>>, call |-> e.call, ck |-> e.ck])
+                /\ taint' = (taint \/ (e.accepted /\ ~e.skipped /\ ~P_WellFormed(H, e.m, e.r)))
                 /\ UNCHANGED names
 
 (* ---------------------------- Headers -------------------------------- *)
 THeaders == /\ IsEv("Headers")
             /\ LET e == Tr[l] IN
                H' = [i \in 1..Len(H) |-> IF H[i].call = e.call THEN [H[i] EXCEPT !.hdr = e.hdr] ELSE H[i]]
-            /\ UNCHANGED names
+            /\ UNCHANGED <<names, taint>>
 
 (* ---------------------------- Serve ---------------------------------- *)
 \* D11 ghosts: a registration that failed kept the subtrees of the segments before the failing one
@@ -124,26 +128,26 @@ ServeVerdict(e) ==
      ELSE IF "D3" \in Dev /\ (grpOf(w) \/ ("D6" \in Dev /\ grpOf(w6)) \/ ("D15" \in Dev /\ grpOf(w15))
                            \/ ("D11" \in Dev /\ DOMAIN Ghosts(e.m) # {} /\ grpOf(w11))) THEN "D3"
      ELSE "bad"
-TServe == /\ IsEv("Serve") /\ Verdict(ServeVerdict(Tr[l])) /\ UNCHANGED <<H, names>>
+TServe == /\ IsEv("Serve") /\ Verdict(IF taint THEN "tainted" ELSE ServeVerdict(Tr[l])) /\ UNCHANGED <<H, names, taint>>
 
 (* ---------------------------- Name / URLPath ------------------------- *)
 TName == /\ IsEv("Name")
          /\ LET e == Tr[l]
                 mustPanic == e.name = "" \/ e.name \in names
-            IN /\ Verdict(IF e.panicked = mustPanic THEN "ok" ELSE "bad")
+            IN /\ Verdict(IF taint THEN "tainted" ELSE IF e.panicked = mustPanic THEN "ok" ELSE "bad")
                /\ names' = IF e.panicked THEN names ELSE names \cup {e.name}
-         /\ UNCHANGED H
+         /\ UNCHANGED <<H, taint>>
 TURLPath == /\ IsEv("URLPath")
             /\ LET e == Tr[l]
                    r == H[e.reg].r
                    vals == PairsToFun(e.vals)
                    multi == \E j \in 1..Len(r.segs) : \E q \in 1..Len(r.segs[j].els) : r.segs[j].els[q].g = 2
                    exp == P_Build(r, vals, e.withopt)
-               IN Verdict(IF e.known
+               IN Verdict(IF taint THEN "tainted" ELSE IF e.known
                           THEN (IF ~e.panicked /\ e.out = exp THEN "ok"
                                 ELSE IF "D5" \in Dev /\ multi /\ ~e.panicked THEN "D5" ELSE "bad")
                           ELSE (IF e.panicked THEN "ok" ELSE "bad"))      \* unknown name must panic
-            /\ UNCHANGED <<H, names>>
+            /\ UNCHANGED <<H, names, taint>>
 
 TNext == TReset \/ TAddRoute \/ THeaders \/ TServe \/ TName \/ TURLPath
 TSpec == TInit /\ [][TNext]_tvars
